@@ -29,3 +29,91 @@ fn c06_expires_in_exact() {
     core::mem::forget(r);
     core::mem::forget(c);
 }
+
+// C01: the CSR built by Csr::new carries exactly the given names as dNSName / iPAddress entries (in
+// order), the configured subject attribute, the configured digest (no pre-hash digest for EdDSA keys),
+// and is built on and self-signed with the SAME key. OpenSSL's builders are records in the model.
+use openssl::pkey::{Id as MId, PKey as MPKey};
+use openssl::x509::X509Extension as MExt;
+use std::marker::PhantomData;
+
+fn kp_of(k: u8, kid: u32) -> KeyPair {
+    let (kt, id, param) = match k {
+        0 => (KeyType::Rsa2048, MId::RSA, 256),
+        1 => (KeyType::EcdsaP256, MId::EC, 415),
+        2 => (KeyType::EcdsaP384, MId::EC, 715),
+        3 => (KeyType::Ed25519, MId::ED25519, 0),
+        _ => (KeyType::Ed448, MId::ED448, 0),
+    };
+    KeyPair { key_type: kt, inner_key: MPKey { id, param, kid, _t: PhantomData } }
+}
+fn s1(b: u8) -> String {
+    unsafe { String::from_utf8_unchecked(vec![b]) }
+}
+
+fn csr_record<const WITH_ATTR: bool>() {
+    let k: u8 = kani::any();
+    kani::assume(k < 5);
+    let kid: u32 = kani::any();
+    kani::assume(kid != 0);
+    let kp = kp_of(k, kid);
+    let d: u8 = kani::any();
+    kani::assume(d < 3);
+    let digest = match d {
+        0 => HashFunction::Sha256,
+        1 => HashFunction::Sha384,
+        _ => HashFunction::Sha512,
+    };
+    let b0: u8 = kani::any();
+    let b1: u8 = kani::any();
+    let b2: u8 = kani::any();
+    kani::assume(b0 >= b'a' && b0 <= b'z' && b1 >= b'a' && b1 <= b'z' && b2 >= b'0' && b2 <= b'9');
+    let domains = [s1(b0), s1(b1)];
+    let ips = [s1(b2)];
+    let mut attrs: HashMap<SubjectAttribute, String> = HashMap::new();
+    if WITH_ATTR {
+        attrs.insert(SubjectAttribute::OrganizationName, String::from("o"));
+    }
+    let r = Csr::new(&kp, digest, &domains, &ips, &attrs);
+    match &r {
+        Ok(csr) => {
+            let q = &csr.inner_csr;
+            assert!(q.pubkey_kid == kid, "C01: CSR public key is not the given key pair's");
+            assert!(q.signed_by == kid, "C01: CSR is not self-signed with the same key");
+            let want_md = if k >= 3 { 0 } else { d + 1 };
+            assert!(q.digest == want_md, "C01: CSR digest is not the configured one (none for EdDSA)");
+            assert!(q.exts.len() == 1, "C01: exactly one extension (subjectAltName) expected");
+            match &q.exts[0] {
+                MExt::San { dns, ip } => {
+                    assert!(dns.len() == 2 && ip.len() == 1, "C01: SAN entry count differs from the configured names");
+                    assert!(dns[0].as_bytes()[0] == b0 && dns[1].as_bytes()[0] == b1 && ip[0].as_bytes()[0] == b2, "C01: SAN entries differ from the configured names / order");
+                }
+                _ => assert!(false, "C01: extension is not a subjectAltName"),
+            }
+            if WITH_ATTR {
+                assert!(q.subject.entries.len() == 1 && q.subject.entries[0].0 == 17 && q.subject.entries[0].1.len() == 1, "C01: configured subject attribute missing or altered");
+            } else {
+                assert!(q.subject.entries.is_empty(), "C01: subject attributes invented");
+            }
+        }
+        Err(_) => assert!(false, "C01: CSR construction failed"),
+    }
+    core::mem::forget(r);
+    core::mem::forget(attrs);
+    core::mem::forget(domains);
+    core::mem::forget(ips);
+    core::mem::forget(kp);
+}
+
+#[kani::proof]
+#[kani::stub(std::hash::RandomState::new, crate::verif_env::rs_stub)]
+#[kani::unwind(2)]
+fn c01_csr_record_no_attr() {
+    csr_record::<false>();
+}
+#[kani::proof]
+#[kani::stub(std::hash::RandomState::new, crate::verif_env::rs_stub)]
+#[kani::unwind(2)]
+fn c01_csr_record_one_attr() {
+    csr_record::<true>();
+}
